@@ -2,6 +2,7 @@ package main
 
 import (
 	"fmt"
+	"runtime/debug"
 	"sort"
 	"strings"
 
@@ -224,4 +225,51 @@ func withTail(d []byte) ([]byte, func() bool) {
 		}
 		return true
 	}
+}
+
+// onFreshStack runs f on a new goroutine (small initial stack) below depth padding frames, so that the
+// goroutine's stack has to grow somewhere inside f - at a point that moves with depth. Stack-allocated
+// variables are moved by a growth; code that keeps their addresses in uintptr form across calls breaks.
+// Panics of f are re-raised on the caller's goroutine.
+func onFreshStack(w *W, depth int, f func()) {
+	done := make(chan interface{}, 1)
+	go func() {
+		defer func() {
+			// the violation is built here, where the panicking stack (and its innermost library frame) still is
+			if r := recover(); r != nil {
+				done <- panicToViolation(w.Prop, r)
+			} else {
+				done <- nil
+			}
+		}()
+		debug.SetPanicOnFault(true) // per goroutine: a guard-page hit must stay a recoverable panic here too
+		padStack(depth, f)
+	}()
+	if r := <-done; r != nil {
+		panic(r)
+	}
+}
+
+//go:noinline
+func padStack(n int, f func()) byte {
+	var pad [96]byte
+	pad[n%96] = byte(n)
+	if n == 0 {
+		f()
+	} else {
+		pad[0] = padStack(n-1, f)
+	}
+	return pad[n%96]
+}
+
+// callOn runs one library call either on the world's own goroutine or (one time in four) on a fresh
+// goroutine at a tape-chosen stack depth.
+func callOn(w *W, f func()) {
+	if w.T.Chance(1, 4, "env.freshstack") {
+		d := w.T.Intn(80, "env.freshstack.depth")
+		w.Count("calls_on_fresh_stack")
+		onFreshStack(w, d, f)
+		return
+	}
+	f()
 }
